@@ -210,13 +210,75 @@ fn minimise(sc0: &Arc<Scenario>, schedule0: &[u8], sig: &str, search_seed: u64) 
     let mut schedule = schedule0.to_vec();
     let mut probes = 0u64;
     let mut shrink_steps = 0u64;
+    // the whole minimisation is bounded in executed scheduling decisions, so that a violation in a
+    // large scenario cannot turn the report into an open-ended search
+    let mut budget_steps: i64 = 40_000_000;
+    // (0) large texts first: drop whole halves / quarters of the text while the signature persists
+    loop {
+        let chars: Vec<char> = sc.text.chars().collect();
+        if chars.len() < 16 || budget_steps <= 0 {
+            break;
+        }
+        let mut progressed = false;
+        for parts in [2usize, 4, 8] {
+            let chunk = chars.len() / parts;
+            for k in 0..parts {
+                let mut s2 = (*sc).clone();
+                s2.text = chars[..k * chunk].iter().chain(chars[((k + 1) * chunk).min(chars.len())..].iter()).collect();
+                let cand = Arc::new(s2);
+                probes += 1;
+                let (out, v) = replay_exec(&cand, &schedule);
+                budget_steps -= out.trace.step as i64 + 1;
+                let mut ok = sig_of(&v) == Some(sig);
+                let mut ch = out.trace.choices.clone();
+                if !ok {
+                    for j in 0..24u64 {
+                        probes += 1;
+                        let s = rng::mix(search_seed, cand.hash(), j);
+                        let mut r = Rng::new(s);
+                        let mode = Mode::draw(&mut r);
+                        let o = execute(&cand, mode, r.next_u64());
+                        budget_steps -= o.trace.step as i64 + 1;
+                        if sig_of(&judge(&cand, &o)) == Some(sig) {
+                            ok = true;
+                            ch = o.trace.choices.clone();
+                            break;
+                        }
+                        if budget_steps <= 0 {
+                            break;
+                        }
+                    }
+                }
+                if ok {
+                    sc = cand;
+                    schedule = ch;
+                    shrink_steps += 1;
+                    progressed = true;
+                    break;
+                }
+            }
+            if progressed {
+                break;
+            }
+        }
+        if !progressed {
+            break;
+        }
+    }
     // (1) workload
     'outer: loop {
+        if budget_steps <= 0 {
+            break;
+        }
         for cand in sc.shrink_candidates() {
+            if budget_steps <= 0 {
+                break 'outer;
+            }
             let cand = Arc::new(cand);
             // try the current schedule with fallback first, then derived seeds
             probes += 1;
             let (out, v) = replay_exec(&cand, &schedule);
+            budget_steps -= out.trace.step as i64 + 1;
             if sig_of(&v) == Some(sig) {
                 sc = cand;
                 schedule = out.trace.choices.clone();
@@ -225,11 +287,15 @@ fn minimise(sc0: &Arc<Scenario>, schedule0: &[u8], sig: &str, search_seed: u64) 
             }
             let mut found = None;
             for k in 0..400u64 {
+                if budget_steps <= 0 {
+                    break;
+                }
                 probes += 1;
                 let s = rng::mix(search_seed, cand.hash(), k);
                 let mut r = Rng::new(s);
                 let mode = Mode::draw(&mut r);
                 let out = execute(&cand, mode, r.next_u64());
+                budget_steps -= out.trace.step as i64 + 1;
                 if sig_of(&judge(&cand, &out)) == Some(sig) {
                     found = Some(out.trace.choices.clone());
                     break;
@@ -246,12 +312,13 @@ fn minimise(sc0: &Arc<Scenario>, schedule0: &[u8], sig: &str, search_seed: u64) 
     }
     // (2) schedule: replace each decision by "stay on the previous task" where possible
     let mut i = 1;
-    while i < schedule.len() {
+    while i < schedule.len() && budget_steps > 0 {
         if schedule[i] != schedule[i - 1] {
             let mut cand = schedule.clone();
             cand[i] = cand[i - 1];
             probes += 1;
             let (out, v) = replay_exec(&sc, &cand);
+            budget_steps -= out.trace.step as i64 + 1;
             if sig_of(&v) == Some(sig) && count_switches(&out.trace.choices) < count_switches(&schedule) {
                 schedule = out.trace.choices.clone();
                 continue;
